@@ -149,6 +149,7 @@ type targetSpec struct {
 	Sources   []string  `json:"sources,omitempty"`   // relative to the package directory
 	Generates []string  `json:"generates,omitempty"` // relative to the package directory
 	Always    bool      `json:"always,omitempty"`
+	SrcTwice  bool      `json:"first_source_listed_twice,omitempty"` // "x.txt" and "./x.txt"
 	Default   bool      `json:"default,omitempty"`
 	Form      string    `json:"form"` // decorator | call | closure
 	Refs      []refSpec `json:"refs,omitempty"`
@@ -172,6 +173,10 @@ func (t *targetSpec) spelledDeps() []string {
 			sp = t.DepSpell[i]
 		}
 		c := strings.LastIndexByte(d, ':')
+		if c < 0 {
+			out = append(out, d) // a package label without a target name (names no target)
+			continue
+		}
 		pkg, name := d[:c], d[c+1:]
 		alt := d
 		if pkg != "//" {
@@ -420,7 +425,12 @@ func (p *projSpec) renderTarget(t *targetSpec) string {
 		kw = append(kw, "deps="+quoteList(t.spelledDeps()))
 	}
 	if len(t.Sources) > 0 || len(t.GlobDirs) > 0 {
-		src := quoteList(t.Sources)
+		srcs := t.Sources
+		if t.SrcTwice && len(t.Sources) > 0 && !strings.Contains(t.Sources[0], "/") {
+			// the first source once more under another spelling of the same file
+			srcs = append(append([]string{}, t.Sources...), "./"+t.Sources[0])
+		}
+		src := quoteList(srcs)
 		for _, g := range t.GlobDirs {
 			src += fmt.Sprintf(" + glob([%q])", g+"/*.txt")
 		}
